@@ -276,6 +276,89 @@ def r6_recipe_py(ctx):
       common.validate_recipe_entry(ctx, R, f'{m.rel}:{name}', i, entry)
 
 
+def r7_session_roundtrip(ctx):
+  """A manager built by a sequence of updates, exported, passed through JSON and
+  loaded into a fresh manager resolves every (operator, scope) like the
+  original, and re-exports the same list. Decided over all update sequences of
+  length <= 3 from a small rule alphabet with the repository's own add / export
+  / load / resolve functions (path interpreter)."""
+  import itertools  # pylint: disable=g-import-not-at-top
+  from sa.rules import c11  # pylint: disable=g-import-not-at-top
+  from sa import absint  # pylint: disable=g-import-not-at-top
+  R = 'C12.R7'
+  rs = ctx.rule(R, 'update sequence -> export -> JSON -> load into a fresh manager: same resolution for every (operator, scope), same re-export (sequences of up to 3 updates)', floor=1)
+  RMq = 'recipe_manager:RecipeManager'
+  add = ctx.repo.func(f'{RMq}.add_quantization_config')
+  exp = ctx.repo.func(f'{RMq}.get_quantization_recipe')
+  load = ctx.repo.func(f'{RMq}.load_quantization_recipe')
+  res = ctx.repo.func(f'{RMq}.get_quantization_configs')
+  ctx.instance(R)
+  OP, ALG, drq, srq, bad = c11._domain(ctx)  # pylint: disable=protected-access
+  MM, NOQ = ALG['MIN_MAX_UNIFORM_QUANT'], ALG['NO_QUANTIZE']
+  FC, CONV, ALL = OP['FULLY_CONNECTED'], OP['CONV_2D'], OP['ALL_SUPPORTED']
+  it = c11._mk_interp(ctx)  # pylint: disable=protected-access
+  alphabet = [('.*', ALL, drq, MM), ('x', FC, srq, MM), ('.*', FC, drq, MM), ('x', ALL, srq, MM), ('y', CONV, drq, MM), ('.*', FC, None, NOQ), ('x', FC, drq, MM)]
+  queries = list(itertools.product([FC, CONV], ['x/y;', 'y;', 'zz;']))
+  rs.exhaustive = True
+
+  def fresh():
+    o = it.construct(RMq, [], {}, None, 0)
+    if not isinstance(o, Obj):
+      raise index.AnalysisError(f'{RMq}.__init__ is not interpretable')
+    return o
+
+  def table(m):
+    out = []
+    for t, s in queries:
+      q = it.outcomes(res, [m, t, s], copy_args=False)
+      if len(q) != 1 or q[0].kind != 'return' or not isinstance(q[0].value, tuple):
+        return None
+      alg, cfg = q[0].value
+      out.append((str(getattr(alg, 'value', alg)), cfg.frozen() if isinstance(cfg, Obj) else repr(cfg)))
+    return out
+  n = 0
+  for k in (1, 2, 3):
+    for seq in itertools.product(range(len(alphabet)), repeat=k):
+      a = fresh()
+      okseq = True
+      for i in seq:
+        rx, op, cfg, alg = alphabet[i]
+        o = it.outcomes(add, [a, rx, op, cfg, alg], copy_args=False)
+        if len(o) != 1 or o[0].kind != 'return':
+          okseq = False
+          break
+      if not okseq:
+        continue   # a rejected update is not part of this rule (C11.R5)
+      label = 'updates ' + ' -> '.join(f"({alphabet[i][0]!r}, {alphabet[i][1].name}, {alphabet[i][3].name})" for i in seq)
+      e = it.outcomes(exp, [a], copy_args=False)
+      if len(e) != 1 or e[0].kind != 'return' or not isinstance(e[0].value, list):
+        ctx.check(R, False, exp.node, exp, label, f'export not decided: {[x.short()[:80] for x in e]}')
+        continue
+      try:
+        exported = common.json_roundtrip(e[0].value)
+      except Exception as ex:  # pylint: disable=broad-except
+        ctx.check(R, False, exp.node, exp, label, f'the exported recipe is not JSON-serialisable: {ex}')
+        continue
+      b = fresh()
+      l = it.outcomes(load, [b, exported], copy_args=False)
+      if len(l) != 1 or l[0].kind != 'return':
+        ctx.check(R, False, load.node, load, label, f'the exported recipe does not load into a fresh manager: {[x.short()[:100] for x in l]}')
+        continue
+      n += 1
+      ta, tb = table(a), table(b)
+      if ta is None or tb is None:
+        ctx.check(R, False, res.node, res, label, 'resolution not decided')
+        continue
+      diff = [(queries[i][0].name, queries[i][1], ta[i][0], tb[i][0]) for i in range(len(queries)) if ta[i] != tb[i]]
+      ctx.check(R, not diff, res.node, res, label,
+                f'after export + load into a fresh manager {diff[0][0] if diff else ""} under scope {diff[0][1] if diff else ""!r} resolves differently '
+                f'({diff[0][2] if diff else ""} config A before, {diff[0][3] if diff else ""} config B after): the saved recipe does not describe the session')
+      e2 = it.outcomes(exp, [b], copy_args=False)
+      same = len(e2) == 1 and e2[0].kind == 'return' and common.json_roundtrip(e2[0].value) == exported
+      ctx.check(R, same, exp.node, exp, label, 're-export of the loaded recipe differs from the recipe that was loaded')
+  ctx.sample(R, {'sequences': n, 'queries': len(queries)})
+
+
 def run(ctx):
   ctx.assume('json.dumps/json.loads map str-enum members to their string value and keep dict/list/bool/int structure')
   r1_field_agreement(ctx)
@@ -284,6 +367,7 @@ def run(ctx):
   r4_shipped_files(ctx)
   r5_fixpoint(ctx)
   r6_recipe_py(ctx)
+  r7_session_roundtrip(ctx)
 
 LEVEL_TEXT = (
     'Static decision of the structural clauses of C12: for every value of the '
